@@ -73,6 +73,8 @@ struct St {
     /// ... or undecodable data (also older data still in its buffer) was dropped since then.
     garbage_since_pass: bool,
     retry_overdue_reported: bool,
+    /// Time of the last poll in which new received bytes became visible to the station.
+    last_bytes_poll: u64,
     /// Destination of the station's last request that expects a reply (and whether it was a GAP
     /// poll), until something is consumed.
     awaiting: Option<(u8, bool)>,
@@ -127,6 +129,7 @@ impl HandoverMonitor {
                     bytes_since_pass: 0,
                     garbage_since_pass: false,
                     retry_overdue_reported: false,
+                    last_bytes_poll: 0,
                     awaiting: None,
                     last_valid_activity: 0,
                 })
@@ -210,6 +213,9 @@ impl Monitor for HandoverMonitor {
                     return;
                 }
             }
+        }
+        if p.new_rx_bytes > 0 {
+            self.st[i].last_bytes_poll = p.t;
         }
         let garbage_before = self.st[i].garbage_since_pass && self.st[i].bytes_since_pass > 0;
         self.st[i].bytes_since_pass += p.new_rx_bytes;
@@ -415,7 +421,9 @@ impl Monitor for HandoverMonitor {
                 // own transmissions and valid telegrams count; undecodable bytes are ignored here
                 // (the exact rule is C01's business on a fault-free bus)
                 let own_end = bus.txs[..idx].iter().rev().take(24).find(|t| t.sender == i).map(|t| t.end()).unwrap_or(0);
-                let silence_from = s.last_valid_activity.max(own_end).max(s.online_at).min(last_visible_activity(w, &bus, i, idx, tx.start).max(s.online_at));
+                // ... and every poll in which the PHY showed the station new bytes, decodable or not,
+                // restarts the silence (the station may not claim into a running transmission)
+                let silence_from = s.last_valid_activity.max(own_end).max(s.online_at).min(last_visible_activity(w, &bus, i, idx, tx.start).max(s.online_at)).max(s.last_bytes_poll);
                 let timeout = token_lost_timeout_ticks(w, i);
                 let claim_ok = is_claim && tx.start.saturating_sub(silence_from) + tol_ticks(w, i, 2, timeout) >= timeout;
                 if claim_ok {
